@@ -10,6 +10,9 @@
 (*   DecideFull   type list x backup shape x switch combination x entry     *)
 (*                type, and one- and two-run histories (mode, source move   *)
 (*                or delete, mode); Quick is a sub-space of Full            *)
+(*   HoleScns     the target holds image H with a layer missing (under the  *)
+(*                mirrored tag and / or a bystander tag): trusted unless    *)
+(*                forceRecursive, repaired by any copy of H, never backed up*)
 (*   RollScns     four runs while a tag moves A -> B -> A (and A->B->C,     *)
 (*                A->B->X) with every backup shape, constant names included *)
 (*   ParScns      two and three entries, parallel 0..4: every interleaving  *)
@@ -77,12 +80,19 @@ DecideQuick(z) ==
               {<<Run("once")>>, <<Run("check")>>, <<Run("missing")>>, <<Run("once"), Move("r1", "v1", "B"), Run("once")>>,
                <<Run("once"), Move("r1", "v1", ""), Run("once")>>, <<Run("missing"), Move("r1", "v1", "X"), Run("once")>>})
 DecideFull(z) ==
-  DecideSpace({Img1("r1", "v1"), E0}, {"A", "B", "X", ""}, {"", "A", "X", "Xa"},
+  DecideSpace({Img1("r1", "v1"), E0}, {"A", "B", "X", "H", ""}, {"", "A", "X", "Xa", "H"},
               {"", "amd64", "s390x"}, {<<>>, <<"ociindex", "dockerman">>},
               {"none", "tagtpl", "const", "fullref", "othreg"}, Switches,
               {<<Run(a)>> : a \in Modes3} \cup
               {<<Run(m[1]), Move("r1", "v1", i), Run(m[2])>> :
                  m \in {<<"once", "once">>, <<"missing", "once">>, <<"once", "check">>}, i \in {"A", "B", "X", ""}})
+
+\* ---------------------------------------------------------------- a target with a missing layer
+HoleScns(z) ==
+  {Scn(Conf(0, <<Opt(e, "", mt, bk, sw)>>), Pop("r1", [v1 |-> si, v2 |-> "H"]), Pop("r1", [v1 |-> ti, zz |-> zi]), p) :
+     e \in {Img1("r1", "v1"), [E0 EXCEPT !.deny = <<F(<<"v2">>, "group")>>], E0}, si \in {"H", "A"}, ti \in {"H", "A", ""},
+     zi \in {"H", "C"}, mt \in {<<>>, <<"dockerman">>}, bk \in {"none", "tagtpl", "fullref"}, sw \in Switches,
+     p \in {<<Run("once")>>, <<Run("missing")>>, <<Run("check")>>, <<Run("once"), Move("r1", "v1", "H"), Run("once")>>}}
 
 \* ---------------------------------------------------------------- a tag moving forth and back
 RollScns(z) ==
@@ -150,9 +160,9 @@ SharedBkSeqScns(z) ==
 \* TLC evaluates every constant level definition without parameters when it starts; the spaces
 \* above take a dummy parameter so that only the one a configuration selects is built
 CONSTANT Space
-SpaceScns == CASE Space = "quick" -> <<FilterScns(0), DecideQuick(0), RollScns(0), ParScns(0), RegScns(0), SharedBkSeqScns(0), SameScns(0),
+SpaceScns == CASE Space = "quick" -> <<FilterScns(0), DecideQuick(0), RollScns(0), ParScns(0), RegScns(0), SharedBkSeqScns(0), SameScns(0), HoleScns(0),
                                       BkForceScns(0), S14Quick(0)>>
-               [] Space = "gen" -> <<DecideQuick(0), RollScns(0), ParScns(0), RegScns(0), SameScns(0), S14Quick(0), BkForceScns(0)>>
+               [] Space = "gen" -> <<DecideQuick(0), RollScns(0), ParScns(0), RegScns(0), SameScns(0), S14Quick(0), BkForceScns(0), HoleScns(0)>>
                [] Space = "full" -> <<DecideFull(0)>>
                [] Space = "par" -> <<ParScns(0)>>
                [] Space = "s14" -> <<S14Scns(0)>>
